@@ -49,6 +49,35 @@ def run(ctx, anchors=None):
     ctx.rule("R11.4", "pair-list parser: same value into map and set; constant-driven state flag; malformed edges return false; tables copied at set-up")
     opstep = fb.fn("StepScript", file="script/interpreter.cpp")
     reach = prog.reachable([opstep])
+    _diag_memo = {}
+
+    def diag_only(fn, depth=0):
+        """a repository function that only writes a diagnostic to stderr: no non-local write, no value returned, and every call is
+        fprintf(stderr, ...), a string formatter, or another such function"""
+        if fn.id in _diag_memo:
+            return _diag_memo[fn.id]
+        ws_ = [p_ for p_ in (prog.write_sets().get(fn.id) or {}) if not (p_[0][0] == "global" and p_[0][1] in ("stderr",))]
+        ok = fn.body is not None and depth <= 2 and not ws_
+        if ok:
+            for x in fn.nodes():
+                if x["k"] == "return" and x.get("e") is not None:
+                    ok = False
+                elif x["k"] == "call":
+                    if x.get("n") == "fprintf":
+                        ok = ok and bool(x["args"]) and any(y["k"] == "ref" and y["n"] == "stderr" for y in walk(x["args"][0]))
+                    elif x.get("n") in ("Join", "HexStr", "fputc", "fputs", "JoinHexStrFun"):
+                        pass
+                    else:
+                        gs = [g for g in (prog.resolve(x["cid"]) if x.get("cid") else []) if g.body is not None]
+                        ok = ok and bool(gs) and all(diag_only(g, depth + 1) for g in gs)
+                elif x["k"] == "mcall" and x.get("mconst") is False and not astq.is_pure_accessor(x):
+                    ok = False
+        _diag_memo[fn.id] = ok
+        return ok
+
+    def is_diag_call(x):
+        gs = [g for g in (prog.resolve(x["cid"]) if x.get("cid") else []) if g.body is not None]
+        return bool(gs) and all(diag_only(g) for g in gs)
     nreads = 0
     sites = []
     for fid in sorted(reach):
@@ -84,7 +113,7 @@ def run(ctx, anchors=None):
                         break
                     if a.get("k") == "if" and S.contains(a["cond"], n):
                         body = [x for x in walk(a["then"]) if x["k"] in ("call", "mcall", "assign", "cassign", "return", "opcall")]
-                        only_diag = all((x["k"] == "call" and x.get("n") in ("fprintf", "Join", "HexStr")) or (x["k"] == "mcall" and x.get("n") in ("c_str",)) or
+                        only_diag = all((x["k"] == "call" and (x.get("n") in ("fprintf", "Join", "HexStr") or is_diag_call(x))) or (x["k"] == "mcall" and x.get("n") in ("c_str",)) or
                                         (x["k"] == "return" and False) for x in body if x["k"] in ("call", "assign", "cassign", "return"))
                         no_state = not any(x["k"] in ("assign", "cassign", "return") for x in body)
                         if only_diag and no_state and a.get("else") is None:
